@@ -143,6 +143,10 @@ def chained_shapes(rng, n):
             lambda: N("try", body=[L(b"a")], reasons=rng.choice([None, ["nomatch"]]), handler=[]),
             lambda: N("try", body=[L(b"a"), L(b"c")], reasons=["nomatch"], handler=[N("hook", name="g")]),
             lambda: N("foreach", body=[L(b"aa")], do=[N("assign", var="m", e=N("bin", op="+", a=N("var", name="m"), b=num(1)))]),
+            lambda: N("case", greedy=False, clauses=[N("clause", preds=[N("lit", bs=b"a", form="s"), N("lit", bs=b"cd", form="s")], body=[rng.choice([L(b"d"), N("foreach", body=[L(b"d")], do=[N("hook", name="g")])])], prio=None),
+                                                     N("clause", preds=[N("lit", bs=b"e", form="s")], body=[], prio=None)]),
+            lambda: N("try", body=[N("case", greedy=False, clauses=[N("clause", preds=[N("lit", bs=b"a", form="s"), N("lit", bs=b"cd", form="s")], body=[L(b"d")], prio=None),
+                                                                     N("clause", preds=[N("lit", bs=b"e", form="s")], body=[], prio=None)])], reasons=None, handler=[]),
             lambda: N("try", body=[N("optional", body=[L(b"a")])], reasons=rng.choice([None, ["nomatch"]]), handler=[N("hook", name="g")]),
             lambda: N("foreach", body=[N("optional", body=[L(b"a"), L(b"c")])], do=[N("assign", var="m", e=N("bin", op="+", a=N("var", name="m"), b=num(1)))]),
             lambda: N("try", body=[N("try", body=[N("optional", body=[L(b"a")])], reasons=["nomatch"], handler=[])], reasons=None, handler=[N("hook", name="g")]),
@@ -172,7 +176,7 @@ def chained_shapes(rng, n):
             body = [N("try", body=[L(b"<"), ovf(), L(b"q")], reasons=rng.choice([None, ["outofspace"], ["nomatch", "outofspace"]]), handler=handler), N("hook", name="t"), L(b"!")]
         elif shape < 0.7:
             body = [L(b"<"), rng.choice(blocks)()] + actions() + rng.choice(nexts)() + [N("hook", name="t"), L(b"!")]
-        elif shape < 0.85:
+        elif shape < 0.9:
             body = [N("case", greedy=False, clauses=[
                 N("clause", preds=[N("lit", bs=b"k", form="s")], body=actions() + rng.choice(nexts)() + [N("assign", var="r", e=num(3))], prio=None),
                 N("clause", preds=[N("lit", bs=b"<", form="s")], body=[rng.choice(blocks)()] + actions(), prio=None)]), N("hook", name="t"), L(b"!")]
@@ -285,7 +289,7 @@ def run(ctx: Ctx):
             for k, v in gen.kinds_of(ast).items():
                 kinds[k] = kinds.get(k, 0) + 1
     shaped = 0
-    for ast in chained_shapes(rng, 40 if quick else 400):
+    for ast in chained_shapes(rng, 60 if quick else 500):
         src = gen.prog_src(ast)
         args = [rng.choice(["-O0", "-O1", "-O2", "-O3"]), "-findirect-start-ptr"]
         r = nm.compile_source(src, args, name="p0", keep=False)
